@@ -13,10 +13,11 @@ def run(ctx):
     q = ctx.tier == "quick"
     conds = []
     for kind in ("counter", "tally", "weighted", "persistent"):
-        conds.append(Cond(f"{kind}/K=2/times 0..4, warm-up and end symbolic, optional pause", "c11", "h_schedule",
-                          {"VF_STAT": kind, "VF_K": 2, "VF_VMAX": 3}, 900 if q else 3000))
+        for pk, pname in ((0, "pause by stop() from a handler"), (1, "pause by a bounded run")):
+            conds.append(Cond(f"{kind}/K=2/times 0..4, warm-up and end symbolic, optional {pname}", "c11", "h_schedule",
+                              {"VF_STAT": kind, "VF_K": 2, "VF_VMAX": 3, "VF_PAUSEKIND": pk}, 900 if q else 3000))
         if not q:
-            conds.append(Cond(f"{kind}/K=3", "c11", "h_schedule", {"VF_STAT": kind, "VF_K": 3, "VF_VMAX": 2}, 3000))
+            conds.append(Cond(f"{kind}/K=3", "c11", "h_schedule", {"VF_STAT": kind, "VF_K": 3, "VF_VMAX": 2, "VF_PAUSEKIND": 0}, 3000))
     ctx.crosshair(conds)
     ctx.bounds = {"schedule": "K=2 (quick) / 3 observation events, times 0..4 (before, at and after warm-up and replication end, ties), "
                               "priorities MIN/NORMAL, warm-up 0..end, end 1..3, pause at any event or none: all symbolic",
